@@ -103,6 +103,10 @@ Persona(H, name) ==
     [] name = "weak4bad"  -> Tab(H, <<RName(H)>>, LAMBDA h : IF h = 4 THEN <<"W4">> ELSE IF h = 2 THEN <<"N2">> ELSE IF h = 3 THEN <<"N3">> ELSE <<RName(h)>>)
     \* a target below the trust level, an honest first pivot, nothing at the following pivot
     [] name = "weak4hole" -> Tab(H, <<RName(H)>>, LAMBDA h : IF h = 4 THEN <<"W4">> ELSE IF h = 3 THEN <<"NotFound">> ELSE <<RName(h)>>)
+    \* a relay: has the block of one height only (and reports it as its latest), nothing else --
+    \* it returns the genuine header but cannot back it against a trace
+    [] name = "relay3"    -> Tab(H, <<"R3">>, LAMBDA h : IF h = 3 THEN <<"R3">> ELSE <<"NotFound">>)
+    [] name = "relay4"    -> Tab(H, <<"R4">>, LAMBDA h : IF h = 4 THEN <<"R4">> ELSE <<"NotFound">>)
     [] name = "lunatic3"  -> Tab(H, <<RName(H)>>, LAMBDA h : IF h = 3 THEN <<"L3">> ELSE <<RName(h)>>)
 
 =============================================================================
